@@ -145,7 +145,9 @@ def gen_case(rng, dadi, tier, k=None, **force):
     return dict(k=k, pts_l=pts, xs=xs, xkind=kind, valued=valued, mode=mode, shape=shape, deg=deg, C=C,
                 fail_mag=fm, planted=planted, pts_kw=pts_kw, explicit_x=bool(xsrc.startswith('explicit')), xsrc=xsrc, res_xs=res_xs,
                 scale=coarse(float(rng.uniform(0.5, 2.0))), pop_ids=(['A', 'B'][:len(shape)] if rng.random() < 0.7 else None),
-                scalar_pts=bool(k == 1 and rng.random() < 0.4), log_wrapper_fail_mag=bool(rng.random() < 0.5))
+                scalar_pts=bool(k == 1 and rng.random() < 0.4), log_wrapper_fail_mag=bool(rng.random() < 0.5),
+                # how the grid sizes are handed over: Python ints, numpy integer scalars (elements of an integer array), a tuple, an integer array
+                pts_kind=['int', 'np_int', 'tuple', 'np_array'][int(rng.choice(4, p=[0.4, 0.3, 0.15, 0.15]))])
 
 def other_xs(rng, dadi, k, pts, xs, kind):
     """k distinct x values, all different from the explicit ones, for the Spectra to carry: what Spectrum.from_phi would
@@ -246,7 +248,13 @@ def call_wrapped(dadi, case, func, order=None, fail_mag='case'):
             f = dadi.Numerics.make_extrap_log_func(func, extrap_x_l=xl)
     else:
         f = dadi.Numerics.make_extrap_func(func, extrap_x_l=xl, **kw)
-    arg = pts[0] if (case.get('scalar_pts') and k == 1) else pts
+    pk = case.get('pts_kind', 'int')
+    if case.get('scalar_pts') and k == 1:
+        arg = np.int64(pts[0]) if pk in ('np_int', 'np_array') else pts[0]
+    elif pk == 'np_int': arg = [np.int64(v) for v in pts]
+    elif pk == 'tuple': arg = tuple(pts)
+    elif pk == 'np_array': arg = np.array(pts, dtype=np.int64)
+    else: arg = pts
     if case['pts_kw']:
         return f(case['scale'], pts=arg)
     return f(case['scale'], arg)
